@@ -8,5 +8,7 @@ CONSTANTS
   Lifecycle = "separate"
   SecondCheck = TRUE
   Filter = TRUE
-INVARIANTS TypeOK AtMostOnce NoStaleInvoke OnlyAllocated QueueBound HandlersConsistent FilterConsistent NoLoss ExitedIdle InvokedOnlyRegistered
+  MaxFail = 1
+  GiveBack = FALSE
+INVARIANTS TypeOK AtMostOnce NoStaleInvoke OnlyAllocated SeqnoUnique QueueBound HandlersConsistent FilterConsistent NoLoss ExitedIdle InvokedOnlyRegistered
 PROPERTIES SeqnoStep
